@@ -43,6 +43,11 @@ type IndexScenario struct {
 	FailAt  int         `json:"fail_at"`
 	Clients [][]IndexOp `json:"clients"`
 	Retry   bool        `json:"retry,omitempty"` // after a failed invalidate, retry the same labels without faults
+	// RetryEach: the retry is one fault-free call per label (in the given order of the failed call's labels,
+	// rotated by RetryRot) instead of one call with all of them: a key that was not deleted must still be
+	// indexed under every one of its labels.
+	RetryEach bool `json:"retry_each,omitempty"`
+	RetryRot  int  `json:"retry_rot,omitempty"`
 	// Sweep: after the clients finished, InvalidateByLabels(Sweep...) runs without faults; afterwards
 	// no key that was ever labelled may be left in a cache of its name.
 	Sweep []string `json:"sweep,omitempty"`
@@ -212,6 +217,8 @@ func genC15(r *rand.Rand, run int, _ string) *Scenario {
 		ix.Clients = [][]IndexOp{{inv()}}
 		ix.FailAt = failPos
 		ix.Retry = true
+		ix.RetryEach = chance(r, 0.4)
+		ix.RetryRot = r.IntN(4)
 		sc.Sched = SchedSpec{Kind: "random", Seed: r.Uint64()}
 	default: // concurrent
 		nc := 2 + r.IntN(3)
@@ -368,6 +375,18 @@ func runIndex(e *env) {
 
 					if rec.err != nil && sc.Retry && rec.panicV == nil {
 						r.failAt = -1
+
+						if sc.RetryEach {
+							ls := dedupStrings(rec.op.Labels)
+							for i := range ls {
+								one := IndexOp{Kind: "invalidate", Labels: []string{ls[(i+sc.RetryRot)%len(ls)]}}
+								r.checkInvalidate(r.exec(ci, &one))
+								e.out.probe("retry_label_by_label")
+							}
+
+							continue
+						}
+
 						retry := *rec.op
 						rr := r.exec(ci, &retry)
 						r.checkRetry(rec, rr)
@@ -633,6 +652,22 @@ func (r *ixRun) checkInvalidate(rec *ixRec) {
 	if rec.n != removed {
 		out.violate("C15.R3", "count", "InvalidateByLabels(%v) returned count %d but %d entries were really removed (%d Delete calls)", rec.op.Labels, rec.n, removed, len(calls))
 	}
+}
+
+func dedupStrings(xs []string) []string {
+	var out []string
+
+	seen := map[string]bool{}
+
+	for _, x := range xs {
+		if !seen[x] {
+			seen[x] = true
+
+			out = append(out, x)
+		}
+	}
+
+	return out
 }
 
 // checkRetry is C15.R5: after the fault-free retry every key that carried a label in L is gone.
